@@ -533,6 +533,9 @@ def check_hist(prop, tier, seed, replay=None):
                     if r.get("cls") == "memcheck_error":
                         vg_errors += 1
                         vl.append({"prop": "C10", "class": "memcheck_error", "func": r.get("func", "-"), "scen": "valgrind", "file": q, "detail": "memcheck: use of uninitialised heap memory in " + r.get("func", "-")})
+                    elif r.get("cls") in ("outcome_depends_on_history_or_heap", "dirty_padding", "temporary_not_released", "header_slot_not_released", "invalid_or_double_free") or str(r.get("cls", "")).startswith("faultfree_"):
+                        # the program (with its extra unfilled-heap world) violates the property outright: an ordinary violation, not a harness problem
+                        vl.append({"prop": r.get("prop", "C10"), "class": r.get("cls"), "func": r.get("func", "-"), "scen": "valgrind", "file": q, "detail": "under the memcheck pass: " + str(r.get("raw"))[:200]})
                     elif r.get("cls") not in ("ok", "SKIPPED"):
                         rep.harness("valgrind pass: unexpected outcome %s for %s" % (r.get("raw"), q))
             else:
